@@ -198,6 +198,15 @@ def make_aux(o, cur, twin, salt):
     if qt == "qfloat8":
         qt = "qfloat8_e4m3fn"
     like = cur._scale.detach().clone() if curq else None
+    if kind in ("same", "three") and isinstance(cur, QBytesTensor) and cur.axis is not None and list(cur._data.shape) == shape:
+        # per-axis working tensor: a second operand with the same qtype and bit-identical per-axis scales
+        vals = torch.tensor(lattice_values(shape, qt, salt + 1), dtype=torch.float64).reshape(shape)
+        outs = []
+        for k in (1, 2):
+            t = (vals.roll(k, -1) * cur._scale.to(torch.float64)).to(dtype)
+            q = SymmetricQuantizer.apply(t, cur.qtype, cur.axis, cur._scale.detach().clone())
+            outs += [q, q.dequantize()]
+        return tuple(outs)
     if kind in ("same", "three"):
         a, fa = make_tensor("QBytes", qt, "none", shape, dtype, salt=salt + 1, like=like)
         a2, fa2 = make_tensor("QBytes", qt, "none", shape, dtype, salt=salt + 2, like=like)
@@ -230,7 +239,10 @@ def run_program(sk, dtype_name="float32"):
             steps.append({"act": "Op", "o": o, "op": o["op"], "before": project(cur, False), "aux": {"kind": "none"}, "twin_ok": True,
                           "outcome": "dequantize:" + type(e).__name__, "after": {"kind": "Raise"}, "twin_shape": []})
             break
-        aux, faux, aux2, faux2 = make_aux(o, cur, twin, i)
+        try:
+            aux, faux, aux2, faux2 = make_aux(o, cur, twin, i)
+        except Exception:  # noqa: BLE001  the working tensor is ill-formed (already reported at the step that produced it)
+            break
         mask = None
         if o["op"] == "where":
             mask = (torch.arange(twin.numel()) % 3 != 0).reshape(twin.shape)
